@@ -90,6 +90,91 @@ def _x1_types(ctx, rel, cls, fx, pyctx, equal, tag):
     return d
 
 
+def _wrapper_sides(ctx, fx):
+    """_FIFOWrapper (the body of stream.AsyncFIFO): the comb nets of the wrapper fall into a write side (sink, the FIFO's din / we /
+    writable) and a read side (source, dout / re / readable) which belong to different clock domains once the wrapper is renamed;
+    the two sides may only meet inside the FIFO.  Decided on the undirected def-use graph of the wrapper's assignments."""
+    WR, RD = {"din", "we", "writable"}, {"dout", "re", "readable"}
+
+    def root(n):
+        parts = []
+        while isinstance(n, (ast.Attribute, ast.Subscript, ast.Call)):
+            if isinstance(n, ast.Attribute):
+                parts.append(n.attr)
+                n = n.value
+            elif isinstance(n, ast.Subscript):
+                n = n.value
+            else:
+                n = n.func
+        if not isinstance(n, ast.Name):
+            return None
+        parts.append(n.id)
+        parts.reverse()
+        if parts[0] == "self":
+            parts = parts[1:]
+        if not parts:
+            return None
+        if parts[0] == "fifo" and len(parts) > 1:
+            return "fifo.W" if parts[1] in WR else ("fifo.R" if parts[1] in RD else "fifo." + parts[1])
+        return parts[0]
+
+    def roots(e):
+        out = set()
+        stack = [e]
+        while stack:
+            n = stack.pop()
+            if isinstance(n, (ast.Attribute, ast.Name)) or (isinstance(n, ast.Call) and isinstance(n.func, ast.Attribute)):
+                r = root(n)
+                if r:
+                    out.add(r)
+                if isinstance(n, ast.Call):
+                    stack.extend(n.args)
+                continue
+            stack.extend(ast.iter_child_nodes(n))
+        return out
+    adj = {}
+    n_as = 0
+    for a in fx.find():
+        try:
+            t = root(ast.parse(a.t, mode="eval").body)
+        except SyntaxError:
+            t = None
+        rs = roots(a.value) | {r for g, _ in a.guards for r in roots(g)}
+        if t is None:
+            continue
+        n_as += 1
+        for r in rs:
+            adj.setdefault(t, {}).setdefault(r, a)
+            adj.setdefault(r, {}).setdefault(t, a)
+    write = {"sink", "fifo.W"}
+    read = {"source", "fifo.R"}
+    seen = {w: None for w in write}
+    todo = list(write)
+    hit = None
+    while todo and hit is None:
+        x = todo.pop(0)
+        for y, a in adj.get(x, {}).items():
+            if y not in seen:
+                seen[y] = (x, a)
+                if y in read:
+                    hit = y
+                    break
+                todo.append(y)
+    path = []
+    y = hit
+    while y is not None and seen.get(y):
+        x, a = seen[y]
+        path.append(f"{a.t} <= {a.v}")
+        y = x
+    present = "fifo.W" in adj.get("sink", {}) or any("fifo.W" in adj.get(z, {}) for z in adj.get("sink", {}))
+    present = present and ("fifo.R" in adj.get("source", {}) or any("fifo.R" in adj.get(z, {}) for z in adj.get("source", {})))
+    ctx.ob("X1", STREAM, "_FIFOWrapper", "sink side drives the FIFO's write port, source side is driven from its read port", present and n_as >= 8,
+           "" if present else "wrapper nets changed: sink / source no longer attached to the FIFO ports")
+    ctx.ob("X1", STREAM, "_FIFOWrapper", "write side and read side meet only inside the FIFO (no net of the wrapper joins them)", hit is None,
+           "" if hit is None else "the write (producer-domain) side reaches the read (consumer-domain) side outside the FIFO: " + "; ".join(reversed(path)) +
+           " -- an unsynchronised path across the crossing when the wrapper is an AsyncFIFO")
+
+
 def run(ctx):
     ctx.rule("X1", "no bypass: producer reaches consumer only through a synchroniser; no statement of domain B reads a signal "
                    "typed in another domain; synchroniser inputs are driven from their own domain", min_sites=18)
@@ -105,6 +190,7 @@ def run(ctx):
     fail_closed(ctx, fx, "ClockDomainCrossing")
     diff = [("cd_from == cd_to", False)]
     _x1_graph(ctx, STREAM, "ClockDomainCrossing", fx, diff, [("self.sink", "self.source")])
+    _wrapper_sides(ctx, fx_of(ctx, STREAM, "_FIFOWrapper"))
     cdc = [i for i in fx.insts if i.name == "cdc" and i.cls == "AsyncFIFO"]
     ok = len(cdc) == 1 and ("cd_from == cd_to", False) in cdc[0].pyguards
     ren = None
